@@ -1148,6 +1148,16 @@ M('sweep11.tokio.wait_okok_false', ['C08'], 'batcher/src/tokio.rs',
   '        Ok(Ok(())) => true,',
   '        Ok(Ok(())) => false,', 'R4:tokio::wait')
 
+M('sweep11.http.frame_false', ['C12'], 'emitter/otlp/src/client/http.rs',
+  '                        Poll::Ready(Ok(true))\n',
+  '                        Poll::Ready(Ok(false))\n', 'C12.R5:response-read-to-end')
+M('sweep11.http.end_true', ['C12'], 'emitter/otlp/src/client/http.rs',
+  'Poll::Ready(None) => Poll::Ready(Ok(false)),',
+  'Poll::Ready(None) => Poll::Ready(Ok(true)),', 'C12.R5:response-read-to-end')
+M('sweep11.http.no_loop', ['C12'], 'emitter/otlp/src/client/http.rs',
+  '        while BufNext(frame, &mut body, &mut trailer).await? {}',
+  '        let _ = BufNext(frame, &mut body, &mut trailer).await?;', 'C12.R5:response-read-to-end')
+
 # ---- round 6 (own probing of the blocking entry points): Trigger, send_or_wait, callbacks ------------------------------------------
 M("C07.wait_zero_timeout_reports_flushed", ["C07"], "batcher/src/sync.rs",
   "            if timeout == Duration::ZERO {\n                return false;", "            if timeout == Duration::ZERO {\n                return true;", "C07.R4:Trigger")
